@@ -261,9 +261,11 @@ def run(ctx):
     for pos, r in ((0, 4), (3, 4), (6, 4), (0, 10)):
         ctx.instance(R)
         ov = Abs(repo.cls("CIGAR"), label="overlap")
+        # the contained segment is as long as the alignment (r), the
+        # container is 10 long: `$` belongs to positions equal to 10 only
         ln = Abs(C, label="cont", pos=pos, overlap=ov,
                  from_segment=Abs(S1, label="seg:a", name="a", length=10),
-                 to_segment=Abs(S1, label="seg:b", name="b", length=10))
+                 to_segment=Abs(S1, label="seg:b", name="b", length=r))
         out = eval_function(repo, f_cf, [ln], hooks=IH(repo, r, r))
         got = [show(x) for x in out[1]] if out[0] == "return" else out[1]
         want = ["%d" % pos, "%d%s" % (pos + r, "$" if pos + r == 10 else "")]
